@@ -175,6 +175,11 @@ def check_deferral(tr, case, stats, script_steps=True):
             if cmds:
                 out.append(viol(tr, r, "configured-code-not-withheld", "%r (mode %s) produced %r inside an episode" % (r["cmd"], ext[code], cmds)))
             continue
+        codes = [tokenize(c)[0] for c in rest if c != r["cmd"]]
+        for gc in ("G1", "G10", "G11", "G92"):
+            if codes.count(gc) > 1:
+                out.append(viol(tr, r, "generated-command-repeated", "%s appears %d times among the commands generated for %r: %r "
+                                "(something from an earlier episode is being replayed)" % (gc, codes.count(gc), r["cmd"], cmds)))
         for c in rest:
             if c == r["cmd"]:
                 continue
@@ -210,7 +215,7 @@ def build_case(rnd, tier, for_c15=False):
     for pi in range(nprints):
         steps.append(["event", EV_START])
         feats = mk(rel=rnd.random() < 0.3, inch=rnd.random() < 0.2, at=True, fw=rnd.random() < 0.2, p_inside=0.5, extgen=marks,
-                   p_ext=0.05, ext=False, zmoves=True)
+                   p_ext=0.05, ext=False, zmoves=True, retmove=rnd.random() < 0.5, beds=False)
         if feats["fw"]:
             feats["fwparam"] = ""
         _, g = gen_program(rnd, feats, settings, nsteps=rnd.randint(10, 70), regions=regs)
